@@ -114,6 +114,7 @@ VA:
 								blist = blist[:i]
 							}
 							busylist[rproc] = blist
+							VerifYield("va-answer:REMOVE:REGISTER")
 							resp <- VarAns{ANS_OK, r.Cell}
 						} else {
 							panic("Attempt to remove an unused Memory cell")
@@ -131,6 +132,7 @@ VA:
 								blist = blist[:i]
 							}
 							busylist[rproc] = blist
+							VerifYield("va-answer:REMOVE:REGISTER")
 							resp <- VarAns{ANS_OK, r.Cell}
 						} else {
 							panic("Attempt to remove an unused Memory cell")
@@ -143,6 +145,7 @@ VA:
 				}
 			case INPUT, OUTPUT, CHANNEL:
 				// TODO Check and make better
+				VerifYield("va-answer:REMOVE:INPUT")
 				resp <- VarAns{ANS_OK, r.Cell}
 			}
 		case REQ_NEW:
@@ -164,7 +167,9 @@ VA:
 							}
 						}
 						if !present {
+							VerifYield("va-answer:NEW:REGISTER")
 							resp <- VarAns{ANS_OK, guessed}
+							VerifYield("va-notify:NEW:REGISTER")
 							useditem <- UsageNotify{TR_PROC, rproc, C_REGSIZE, S_NIL, i + 1}
 							busylist[rproc] = append(busylist[rproc], guessed)
 							created = true
@@ -192,7 +197,9 @@ VA:
 							}
 						}
 						if !present {
+							VerifYield("va-answer:NEW:REGISTER")
 							resp <- VarAns{ANS_OK, guessed}
+							VerifYield("va-notify:NEW:REGISTER")
 							useditem <- UsageNotify{TR_PROC, rproc, C_REGSIZE, S_NIL, i + 1}
 							busylist[rproc] = append(busylist[rproc], guessed)
 							created = true
@@ -225,7 +232,9 @@ VA:
 							}
 						}
 						if !present {
+							VerifYield("va-answer:NEW:MEMORY")
 							resp <- VarAns{ANS_OK, guessed}
+							VerifYield("va-notify:NEW:MEMORY")
 							useditem <- UsageNotify{TR_PROC, rproc, C_RAMSIZE, S_NIL, i + 1}
 							busylist[rproc] = append(busylist[rproc], guessed)
 							created = true
@@ -254,7 +263,9 @@ VA:
 							}
 						}
 						if !present {
+							VerifYield("va-answer:NEW:MEMORY")
 							resp <- VarAns{ANS_OK, guessed}
+							VerifYield("va-notify:NEW:MEMORY")
 							useditem <- UsageNotify{TR_PROC, rproc, C_RAMSIZE, S_NIL, i + 1}
 							busylist[rproc] = append(busylist[rproc], guessed)
 							created = true
@@ -312,9 +323,11 @@ VA:
 								}
 							}
 							if !present {
+								VerifYield("va-answer:NEW:INPUT")
 								resp <- VarAns{ANS_OK, guessed}
 								// Only in the IO is inittializated its use has to be notified
 								if rcell.Global_id != 0 {
+									VerifYield("va-notify:NEW:INPUT")
 									useditem <- UsageNotify{TR_PROC, rproc, C_INPUT, S_NIL, rcell.Global_id}
 								}
 								busylist[rproc] = append(busylist[rproc], guessed)
@@ -322,6 +335,7 @@ VA:
 							}
 						}
 					} else {
+						VerifYield("va-answer:NEW:INPUT")
 						resp <- VarAns{ANS_FAIL, VarCell{gent, 0, 0, 0, 0, 0, 0, 0}}
 					}
 				} else {
@@ -377,9 +391,11 @@ VA:
 								}
 							}
 							if !present {
+								VerifYield("va-answer:NEW:OUTPUT")
 								resp <- VarAns{ANS_OK, guessed}
 								// Only in the IO is inittializated its use has to be notified
 								if rcell.Global_id != 0 {
+									VerifYield("va-notify:NEW:OUTPUT")
 									useditem <- UsageNotify{TR_PROC, rproc, C_OUTPUT, S_NIL, rcell.Global_id}
 								}
 								busylist[rproc] = append(busylist[rproc], guessed)
@@ -387,6 +403,7 @@ VA:
 							}
 						}
 					} else {
+						VerifYield("va-answer:NEW:OUTPUT")
 						resp <- VarAns{ANS_FAIL, VarCell{gent, 0, 0, 0, 0, 0, 0, 0}}
 					}
 				} else {
@@ -416,6 +433,7 @@ VA:
 							readers := make([]int, 0)
 							writers := make([]int, 0)
 							busychan = append(busychan, ChanInfo{guessed_global_id, connected, readers, writers})
+							VerifYield("va-notify:NEW:CHANNEL")
 							useditem <- UsageNotify{TR_CHAN, guessed_global_id, C_CONNECTED, S_NIL, rproc}
 							created = true
 							break
@@ -433,9 +451,12 @@ VA:
 								}
 							}
 							if !present {
+								VerifYield("va-answer:NEW:CHANNEL")
 								resp <- VarAns{ANS_OK, guessed}
+								VerifYield("va-notify:NEW:CHANNEL")
 								useditem <- UsageNotify{TR_PROC, rproc, C_SHAREDOBJECT, "channel:", I_NIL}
 								busylist[rproc] = append(busylist[rproc], guessed)
+								VerifYield("va-notify:NEW:CHANNEL")
 								useditem <- UsageNotify{TR_CHAN, guessed_global_id, C_CONNECTED, S_NIL, rproc}
 								created = true
 								break
@@ -470,6 +491,7 @@ VA:
 							readers := make([]int, 0)
 							writers := make([]int, 0)
 							busychan = append(busychan, ChanInfo{guessed_global_id, connected, readers, writers})
+							VerifYield("va-notify:NEW:CHANNEL")
 							useditem <- UsageNotify{TR_CHAN, guessed_global_id, C_CONNECTED, S_NIL, rproc}
 							created = true
 							break
@@ -487,9 +509,12 @@ VA:
 								}
 							}
 							if !present {
+								VerifYield("va-answer:NEW:CHANNEL")
 								resp <- VarAns{ANS_OK, guessed}
+								VerifYield("va-notify:NEW:CHANNEL")
 								useditem <- UsageNotify{TR_PROC, rproc, C_SHAREDOBJECT, "channel:", I_NIL}
 								busylist[rproc] = append(busylist[rproc], guessed)
+								VerifYield("va-notify:NEW:CHANNEL")
 								useditem <- UsageNotify{TR_CHAN, guessed_global_id, C_CONNECTED, S_NIL, rproc}
 								created = true
 								break
@@ -524,10 +549,13 @@ VA:
 							}
 						}
 						if !present {
+							VerifYield("va-answer:ATTACH:CHANNEL")
 							resp <- VarAns{ANS_OK, guessed}
+							VerifYield("va-notify:ATTACH:CHANNEL")
 							useditem <- UsageNotify{TR_PROC, rproc, C_SHAREDOBJECT, "channel:", I_NIL}
 							busylist[rproc] = append(busylist[rproc], guessed)
 							busychan[guessed_global_id].Connected = append(busychan[guessed_global_id].Connected, rproc)
+							VerifYield("va-notify:ATTACH:CHANNEL")
 							useditem <- UsageNotify{TR_CHAN, guessed_global_id, C_CONNECTED, S_NIL, rproc}
 							created = true
 							break
@@ -554,10 +582,13 @@ VA:
 							}
 						}
 						if !present {
+							VerifYield("va-answer:ATTACH:CHANNEL")
 							resp <- VarAns{ANS_OK, guessed}
+							VerifYield("va-notify:ATTACH:CHANNEL")
 							useditem <- UsageNotify{TR_PROC, rproc, C_SHAREDOBJECT, "channel:", I_NIL}
 							busylist[rproc] = append(busylist[rproc], guessed)
 							busychan[guessed_global_id].Connected = append(busychan[guessed_global_id].Connected, rproc)
+							VerifYield("va-notify:ATTACH:CHANNEL")
 							useditem <- UsageNotify{TR_CHAN, guessed_global_id, C_CONNECTED, S_NIL, rproc}
 							created = true
 							break
